@@ -27,6 +27,7 @@ class World(object):
         self.profiles = {}       # profile name -> dict
         self.procs = []          # every SimPopen created, in order
         self.fault_counts = {}
+        self.profile_fn = None     # optional: (key, owner task) -> (profile, member index, solve number)
         self.io = {"short_reads": 0, "reads": 0, "writes": 0, "short_writes": 0}
 
     def fire(self, kind):
@@ -151,6 +152,12 @@ class SimPopen(object):
         key = self.args[1] if len(self.args) > 1 else self.args[0]
         self.key = key
         prof = world.profiles.get(key, {})
+        self.member_idx = None
+        self.solve_no = None
+        if getattr(world, "profile_fn", None) is not None:
+            got = world.profile_fn(key, world.kernel.me_task())
+            if got is not None:
+                prof, self.member_idx, self.solve_no = got
         if isinstance(prof, list):
             # one profile per incarnation: the k-th process started for this member
             nth = sum(1 for p in world.procs if p.key == key)
